@@ -120,9 +120,12 @@ def _do_parse(p, rec, op, armed=None, keep=None):
             rec.begin(op.get("peer_seed", 0))
     else:
         text = "".join(list(op["input"]))
+    pk = dict(op.get("kw") or {})
+    if "extra" in pk:
+        pk["extra"] = dict(pk["extra"])  # the caller's own object, fresh per call
     out = parse_outcome(
         p, text, with_errors=bool(rec), call_actions=op.get("mode") == "call_actions",
-        keep=keep,
+        keep=keep, parse_kwargs=pk,
     )
     del text
     out["seams"] = dict(peers.SEAM.counts)
@@ -323,6 +326,8 @@ def run_history(spec, ops, stats=None):
                 q["mode"] = op["mode"]
             if "peer_seed" in op:
                 q["peer_seed"] = op["peer_seed"]
+            if op.get("kw"):
+                q["kw"] = op["kw"]
         queries.append(q)
     wants = oracle_batch(spec, queries)
     for i, op in enumerate(ops):
@@ -474,6 +479,17 @@ def gen_run(rng, tier):
               "peer_seed": rng.getrandbits(32)}
         if (b["kind"] == "glr" or b["opts"].get("build_tree")) and rng.random() < 0.5:
             op["mode"] = "call_actions"
+        if rng.random() < 0.12:
+            # the optional arguments of parse(): none of them may be remembered
+            which = rng.choice(["file_name", "extra", "position"])
+            if which == "file_name":
+                op["kw"] = {"file_name": rng.choice(["in.txt", "dir/other.src"])}
+            elif which == "extra":
+                op["kw"] = {"extra": {"run": rng.randrange(100)}}
+            else:
+                junk = rng.choice(["@@", "# ", "%%%"])
+                op["input"] = junk + op["input"]
+                op["kw"] = {"position": len(junk)}
         if fault:
             # prefer the seams that exist in this scenario: recognizers are also
             # called while an error is being reported (every recognizer is probed),
